@@ -4,6 +4,7 @@ def b_PlanningProblem_create_node : CR.SrcW.Builder where
   kind := .node
   tag := "planningProblem"
   xsd := "planningProblem"
+  path := []
   parent := ""
   attrs := [("id", (.str "_.planning_problem_id"))]
   gattrs := []
@@ -21,7 +22,8 @@ def b_PlanningProblem_create_node_initialState : CR.SrcW.Builder where
   key := "PlanningProblemXMLNode.create_node/initialState"
   kind := .node
   tag := "initialState"
-  xsd := ""
+  xsd := "planningProblem"
+  path := ["initialState"]
   parent := "PlanningProblemXMLNode.create_node"
   attrs := []
   gattrs := []
